@@ -40,6 +40,7 @@ type txRef struct {
 
 type c09 struct {
 	*Base
+	pre seqx.Pre
 	maxRetrans int
 	pos        uint32
 	tx         []*txRef
@@ -73,7 +74,8 @@ func (c *c09) prefix() {
 		c.R.Assoc(c.W.PeerIP(p), p)
 		o := c.W.Send(p, smf.Est(c.NextSeq(p), c.W.PeerIP(p), true, 0x10, c.W.PeerIP(p), op('C', 'F', 1), op('C', 'U', 1), pdr('C', 1, 1, 1)))
 		if len(o.Out[p]) != 1 {
-			evid.Infra("C09 prefix: establishment not answered")
+			c.pre.Fail("C09", fmt.Sprintf("establishment from %c not answered (%d datagrams, loop alive=%v fatal=%v)", 'A'+p, len(o.Out[p]), o.Alive, o.Fatal))
+			return
 		}
 		up, _, _ := o.Out[p][0].FSEID()
 		c.EstUP = append(c.EstUP, up)
@@ -295,7 +297,7 @@ func (c *c09) Apply(e seqx.Event) seqx.StepResult {
 			j.Fail("table-size", "%d transmit transactions retained, %d requests outstanding", len(c.W.V.Tx()), n)
 		}
 	}
-	return seqx.StepResult{Obs: e.String() + " => " + o.StringL(c.Label), Viols: j.Viols, Tags: j.Tags}
+	return seqx.StepResult{Obs: e.String() + " => " + o.StringL(c.Label), Viols: append(c.pre.Take(), j.Viols...), Tags: j.Tags}
 }
 
 func count(o StepObs) int {
